@@ -367,7 +367,7 @@ theorem FlagInv.slotState {R : List Reg} {p : Pool} (h : FlagInv R p) (s : Nat) 
   ⟨h.1.of_waiting (slotState_frame p s).2.2, fun r hr => (h.2 r hr).slotState s⟩
 
 theorem addVote_flag (R : List Reg) (p : Pool) (v : Vote) (h : FlagInv R p) : FlagInv R (p.addVote v).1 := by
-  apply addVote_ind (FlagInv R) p v (fun s hp => hp.slotState s) ?_ (fun c _ q hq => addValidCert_flag R c q hq) h
+  apply addVote_ind (FlagInv R) p v (fun s hp => hp.slotState s) ?_ (fun c _ _ q hq => addValidCert_flag R c q hq) h
   intro _ _
   have hfr := mod_frame p v.slot ((p.slotState v.slot).2.addVote p.epoch v).1
   refine ⟨h.1.of_waiting hfr.2.2, fun r hr => ?_⟩
@@ -377,7 +377,7 @@ theorem addVote_flag (R : List Reg) (p : Pool) (v : Vote) (h : FlagInv R p) : Fl
   · intro k hk; exact Or.inl hk
 
 theorem addCert_flag (R : List Reg) (p : Pool) (c : Cert) (h : FlagInv R p) : FlagInv R (p.addCert c).1 :=
-  addCert_ind (FlagInv R) p c (fun s hp => hp.slotState s) (fun q hq => addValidCert_flag R c q hq) h
+  addCert_ind (FlagInv R) p c (fun s hp => hp.slotState s) (fun _ q hq => addValidCert_flag R c q hq) h
 
 /-! ### `add_block` -/
 
